@@ -157,6 +157,8 @@ def TimedFrom (ttl : Nat) (hist : List (Nat Ã— Nat)) (clock : Nat) : List TOp â†
     | .up => TimedFrom ttl hist clock ops
     | .pingOk _ => TimedFrom ttl hist clock ops
     | .monExit _ => TimedFrom ttl hist clock ops
+    | .lateFail _ => TimedFrom ttl hist clock ops
+    | .cancelledAlive _ _ _ => TimedFrom ttl hist clock ops
 
 /-- timing hypothesis for a run from the initial state -/
 def Timed (c : TCfg) (ops : List TOp) : Prop := TimedFrom (ttlFixed c.rate c.burst) [] 0 ops
@@ -213,3 +215,12 @@ def meterLevels (rate : Nat) : Meter â†’ List ((Nat Ã— Nat) Ã— Bool) â†’ List Na
     else meterLevels rate m rest
 
 end GoZero.C03.Spec
+
+namespace GoZero.C03
+
+/-- final state of a run -/
+def Sys.exec (fixed : Bool) (c : TCfg) : Sys â†’ List TOp â†’ Sys
+  | s, [] => s
+  | s, op :: ops => Sys.exec fixed c (s.step fixed c op).1 ops
+
+end GoZero.C03
